@@ -139,6 +139,11 @@ type ReqState struct {
 	Sure     map[common.Address]bool
 	Maybe    map[common.Address]bool
 	Rounds   int // number of times an effect was observed
+	// Saw records, per approver, the content of the request that was pending when it approved
+	// ("" = nothing pending): the quorum must have approved the content that is applied.
+	Saw map[common.Address]string
+	// Replaced: a new request took the place of a pending one that had not been withdrawn by its requester
+	Replaced bool
 }
 
 // Finding is a verdict of the model.
@@ -215,7 +220,7 @@ func (m *Model) RS(method, req string) *ReqState {
 	k := method + "\x00" + req
 	rs := m.Reqs[k]
 	if rs == nil {
-		rs = &ReqState{Sure: map[common.Address]bool{}, Maybe: map[common.Address]bool{}}
+		rs = &ReqState{Sure: map[common.Address]bool{}, Maybe: map[common.Address]bool{}, Saw: map[common.Address]string{}}
 		if method == KBlackNode || method == KWhiteNode {
 			rs.Pending = 1 // no separate owner request: the approvers themselves ask
 		}
@@ -229,6 +234,9 @@ func (m *Model) Lookup(method, req string) *ReqState { return m.Reqs[method+"\x0
 
 func (m *Model) newIncarnation(method, req string, p *pend) {
 	rs := m.RS(method, req)
+	if rs.Pending == 1 && rs.P != nil && rs.P.content() != p.content() && len(rs.Sure) > 0 {
+		rs.Replaced = true
+	}
 	for a := range rs.Sure {
 		rs.Maybe[a] = true
 	}
@@ -649,8 +657,12 @@ func (m *Model) judgeApprove(j *Judgement, o *Op, rec *nat.CallRecord, obs *Obs,
 	caller := o.named().Addr()
 	if rs.Pending == 1 {
 		rs.Sure[caller] = true
+		rs.Saw[caller] = rs.P.content()
 	} else {
 		rs.Maybe[caller] = true
+		if _, ok := rs.Saw[caller]; !ok {
+			rs.Saw[caller] = ""
+		}
 	}
 	setA, setB := m.valSets()
 	tA, tB := Threshold(len(setA)), Threshold(len(setB))
@@ -756,12 +768,15 @@ func (m *Model) judgeApprove(j *Judgement, o *Op, rec *nat.CallRecord, obs *Obs,
 			}
 		}
 		m.judgeRegistry(j, o, rs)
+		m.judgeContent(j, o, rs, setA, setB)
 		m.ES = s1
 		rs.Pending = 0
 		rs.Consumed = true
 		rs.Rounds++
 		rs.Sure = map[common.Address]bool{}
 		rs.Maybe = map[common.Address]bool{}
+		rs.Saw = map[common.Address]string{}
+		rs.Replaced = false
 		if o.Kind == KBlackNode || o.Kind == KWhiteNode {
 			rs.Pending = 1
 			rs.Consumed = false
@@ -790,6 +805,65 @@ func (m *Model) judgeApprove(j *Judgement, o *Op, rec *nat.CallRecord, obs *Obs,
 		if o.Kind == KBlackNode || o.Kind == KWhiteNode {
 			rs.Pending = 1
 			rs.Consumed = false
+		}
+	}
+}
+
+// content is a fingerprint of what a request asks for.
+func (p *pend) content() string {
+	if p == nil {
+		return ""
+	}
+	switch {
+	case p.Cand != nil:
+		return fmt.Sprintf("candidate %s owner=%x", p.Cand.Canon, p.Cand.Owner[:])
+	case p.Chain != nil:
+		return p.Chain.line()
+	case p.Addrs != nil:
+		return fmt.Sprintf("relayers %x", p.Addrs)
+	case p.Strs != nil:
+		return "svs " + strings.Join(p.Strs, ",")
+	}
+	return fmt.Sprintf("by %x", p.Requester[:])
+}
+
+// judgeContent: the request that is applied must be the one a quorum approved. An approver vouches for the
+// content that was pending when it approved; if the content was replaced afterwards (another requester, or the
+// same one with other data) those approvals are approvals of a different request.
+func (m *Model) judgeContent(j *Judgement, o *Op, rs *ReqState, setA, setB map[common.Address]bool) {
+	if rs.Pending != 1 || rs.P == nil {
+		return
+	}
+	want := rs.P.content()
+	same := map[common.Address]bool{}
+	other := 0
+	for a, c := range rs.Saw {
+		if c == want {
+			same[a] = true
+		} else if (setA[a] || setB[a]) && c != "" {
+			other++
+		}
+	}
+	if countIn(same, nil, setA) >= Threshold(len(setA)) || countIn(same, nil, setB) >= Threshold(len(setB)) {
+		m.Count("applied_content_approved_by_a_quorum", 1)
+		return
+	}
+	if other == 0 {
+		m.Count("applied_with_approvals_given_while_nothing_was_pending", 1)
+		return // pre-approvals of an id, not approvals of a different content (recorded only)
+	}
+	what := fmt.Sprintf("%s request=%s took effect with content {%s}; only %d of %d consensus validators approved that content, %d validators had approved a different content pending earlier under the same id",
+		o.Kind, m.reqName(o), want, countIn(same, nil, setA), len(setA), other)
+	switch approveSpecs[o.Kind].family {
+	case "side_chain":
+		j.Findings = append(j.Findings, Finding{"C35", "side_chain:applied-record-not-the-request-the-quorum-approved@" + o.Kind, what})
+	default:
+		if rs.Replaced {
+			// the pending request was overwritten (not withdrawn by its requester) and the approvals given to it were kept
+			j.Findings = append(j.Findings, Finding{"C32", "effect-with-approvals-of-a-replaced-request@" + o.Kind, what})
+		} else {
+			// withdrawn and re-made: C32 keeps the weaker reading (request identity = method + id): recorded, not judged
+			m.Count("effect_relied_on_approvals_of_withdrawn_request@"+o.Kind, 1)
 		}
 	}
 }
